@@ -20,6 +20,8 @@ class Abs:
         self.pending = []                 # coroutine mode: enqueued, not yet resumed
         self.given = {}
         self.popped = {}
+        self.ncoros = NCOROS
+        self.outside = False              # the history left the quantifier of C06 (see `own handle`)
 
     def live(self, i):
         return 0 <= i < len(self.slots) and self.slots[i] is not None
@@ -30,12 +32,19 @@ class Abs:
     def give(self, h):
         self.given[h] = self.given.get(h, 0) + 1
 
-    def consume(self, hs):
+    def consume(self, hs, final=False):
         """handles of a discarded suspend point: resumed now (normal mode) or enqueued (coroutine mode)"""
         if self.mode == "c":
+            if DRIVER_ID in hs and not final:
+                # the handle of the *running* coroutine was discarded into the ready queue: it is not a ready
+                # coroutine (only its own co_await may consume it); outside the quantifier
+                self.outside = True
             self.pending += hs
             return []
         return list(hs)
+
+    def me_ok(self, me):
+        return me == DRIVER_ID if self.mode == "c" else me >= self.ncoros
 
     def apply(self, w, popped=None):
         """returns (valid, handles that must be resumed during this operation)"""
@@ -80,6 +89,14 @@ class Abs:
             if not self.live(a[0]) or not (0 <= a[1] < NCOROS): return False, []
             S[a[0]]["h"] = S[a[0]]["h"] + [a[1]]
             self.give(a[1])
+        elif op == "addme":
+            if not self.live(a[0]) or not self.me_ok(a[1]): return False, []
+            S[a[0]]["h"] = S[a[0]]["h"] + [a[1]]
+            self.give(a[1])
+        elif op == "ctorself":
+            if self.mode != "c" or a[1] != DRIVER_ID or not self.vacant(a[0]): return False, []
+            S[a[0]] = {"typed": False, "val": None, "h": [a[1]]}
+            self.give(a[1])
         elif op == "pop":
             if not self.live(a[0]): return False, []
             if popped is not None and popped in S[a[0]]["h"]:
@@ -101,17 +118,35 @@ class Abs:
             return True, self.consume(hs)
         elif op == "await":
             if not self.live(a[0]): return False, []
-            if self.mode == "c" and a[1] != DRIVER_ID: return False, []
+            if not self.me_ok(a[1]): return False, []
+            me = a[1]
             hs = S[a[0]]["h"]
             if not hs:
                 return True, []
             S[a[0]]["h"] = []
-            self.give(a[1])
-            out = self.pending + hs + [a[1]]
+            if hs[-1] == me or me in self.pending:
+                # own handle last (or sole), or already queued: contract of co_await, outside the quantifier
+                self.outside = True
+                return True, []
+            if me in hs:
+                # own handle among the others (the yield idiom): it is queued exactly once, nothing new is handed in.
+                # normal mode: everything runs before co_await returns to plain code; coroutine mode: the scheduler
+                # runs up to the own handle, the handles behind it stay queued
+                if self.mode != "c":
+                    return True, list(hs)
+                q = self.pending + hs[:-1]
+                k = q.index(me)
+                self.pending = q[k + 1:]
+                return True, [hs[-1]] + q[:k + 1]
+            self.give(me)
+            out = self.pending + hs + [me]
             self.pending = []
             return True, out
         elif op == "yield":
             if self.mode != "c" or a[0] != DRIVER_ID: return False, []
+            if a[0] in self.pending:
+                self.outside = True
+                return True, []
             self.give(a[0])
             out = self.pending + [a[0]]
             self.pending = []
@@ -124,7 +159,7 @@ class Abs:
             out = []
             for i in range(len(S)):
                 if S[i] is not None:
-                    out += self.consume(S[i]["h"])
+                    out += self.consume(S[i]["h"], final=True)
                     S[i] = None
             out += self.pending
             self.pending = []
@@ -179,9 +214,61 @@ class SPSuite(Suite):
                                         if s.startswith("pop ") and ab.live(int(s.split()[1])) and ab.slots[int(s.split()[1])]["h"]
                                         else None))
 
+        def own_handle_block():
+            """the awaiting coroutine puts its OWN handle into a suspend point (first / middle, never last) and awaits it"""
+            live = [i for i in range(nslots) if ab.live(i)]
+            vac = [i for i in range(nslots) if ab.vacant(i)]
+            m = me_id()
+            k = rng.random()
+            if mode == "c" and vac and k < 0.35:
+                i = rng.choice(vac)
+                emit("ctorself %d %d" % (i, m))                     # sp = co_await self(): own handle first
+            else:
+                if not live:
+                    if not vac:
+                        return
+                    i = rng.choice(vac)
+                    emit("ctor %d" % i if rng.random() < 0.6 else "ctorv %d %d" % (i, rng.randint(0, 999)))
+                else:
+                    i = rng.choice(live)
+                emit("addme %d %d" % (i, m))
+            for _ in range(rng.choice([1, 1, 2, 3, 4, 6, 10, 22])):
+                h = fresh()
+                if h is None:
+                    break
+                emit("addh %d %d" % (i, h))
+            live = [j for j in range(nslots) if ab.live(j) and j != i]
+            if live and rng.random() < 0.35:
+                j = rng.choice(live)
+                if rng.random() < 0.5 and ab.slots[j]["h"]:
+                    emit("mrg %d %d" % (i, j))                      # others appended behind the own handle
+                elif not (ab.slots[j]["typed"] and not ab.slots[i]["typed"]):
+                    emit("%s %d %d" % (rng.choice(["mrg", "asg"]), j, i))   # own handle travels into another object
+                    i = j
+            vac = [j for j in range(nslots) if ab.vacant(j)]
+            if vac and rng.random() < 0.2:
+                j = rng.choice(vac)
+                emit("%s %d %d" % (rng.choice(["mov", "movb"]), j, i))
+                i = j
+            if rng.random() < 0.15 and len(ab.slots[i]["h"]) >= 2 and ab.slots[i]["h"][-2] != m:
+                emit("pop %d" % i)
+            if not ab.slots[i]["h"] or ab.slots[i]["h"][-1] == m or m not in ab.slots[i]["h"]:
+                h = fresh()
+                if h is None:
+                    # cannot make the own handle non-last: take it out again
+                    while ab.slots[i]["h"] and m in ab.slots[i]["h"]:
+                        emit("pop %d" % i)
+                    return
+                emit("addh %d %d" % (i, h))
+            emit("await %d %d" % (i, m))
+
+        own = rng.random() < 0.4
         target = rng.randrange(nslots)           # the slot the "grow" profile feeds
         burst = 0
         for _ in range(nops):
+            if own and rng.random() < 0.06:
+                own_handle_block()
+                continue
             live = [i for i in range(nslots) if ab.live(i)]
             vac = [i for i in range(nslots) if ab.vacant(i)]
             r = rng.random()
@@ -285,11 +372,36 @@ class SPSuite(Suite):
                     cases.append({"id": 0, "lines": ls})
         return cases
 
+    def own_handle_cases(self):
+        """deterministic: the awaiting coroutine's own handle first / in the middle / second to last among k others,
+        k across the inline limit and the doublings, both modes, directly and via co_await self()"""
+        cases = []
+        for mode in ("n", "c"):
+            me = DRIVER_ID if mode == "c" else 100
+            for k in (1, 2, 3, 4, 5, 6, 7, 11, 12, 13, 24, 25, 39):
+                for pos in sorted({0, 1, k // 2, k - 1}):
+                    if pos > k - 1:
+                        continue
+                    for via in (("addme", "self") if mode == "c" and pos == 0 else ("addme",)):
+                        ls = ["case 0 sp %s 3 %d" % (mode, NCOROS)]
+                        if via == "self":
+                            ls.append("ctorself 0 %d" % me)
+                        else:
+                            ls.append("ctor 0")
+                        for x in range(k):
+                            if x == pos and via == "addme":
+                                ls.append("addme 0 %d" % me)
+                            ls.append("addh 0 %d" % x)
+                        ls += ["ctorh 1 80", "clear 1", "size 0", "await 0 %d" % me, "size 0", "addh 0 81",
+                               "await 0 %d" % (me if mode == "c" else 101), "end"]
+                        cases.append({"id": 0, "lines": ls})
+        return cases
+
     def exhaustive_cases(self, depth):
         """every sequence of up to `depth` macro-operations over two suspend points (slot 0 starts with 3 handles, i.e.
         at the inline limit, slot 1 with one), in both modes; `grow` adds 4 handles at once (crosses the next boundary)"""
         alphabet = ["add0", "add1", "grow0", "mrg01", "mrg10", "asg01", "self0", "mov", "pop0", "pop1", "clear0", "del0",
-                    "del1", "await0", "await1"]
+                    "del1", "await0", "await1", "own0"]
         cases = []
 
         def rec(prefix):
@@ -329,12 +441,18 @@ class SPSuite(Suite):
             elif m in ("await0", "await1"):
                 me += 1
                 ls.append("await %s %d" % (m[-1], DRIVER_ID if mode == "c" else me))
+            elif m == "own0":
+                # own handle behind whatever slot 0 holds, one more handle behind it, then co_await
+                me += 1
+                ls += ["addme 0 %d" % (DRIVER_ID if mode == "c" else me), "addh 0 %d" % nxt,
+                       "await 0 %d" % (DRIVER_ID if mode == "c" else me)]
+                nxt += 1
         ls.append("end")
         return {"id": 0, "lines": ls}
 
     def gen_cases(self, rng, tier):
         n = 1000 if tier == "quick" else 250000
-        cases = self.boundary_cases() + self.exhaustive_cases(3 if tier == "quick" else 4)
+        cases = self.boundary_cases() + self.own_handle_cases() + self.exhaustive_cases(3 if tier == "quick" else 4)
         for _ in range(n):
             cases.append(self.gen_case(rng))
         return cases
@@ -366,6 +484,8 @@ class SPSuite(Suite):
                 popped = int(head[1]) if head[1].isdigit() else -1
             before = list(ab.slots[int(w[1])]["h"]) if w[0] == "pop" and len(w) > 1 and ab.live(int(w[1])) else None
             valid, must = ab.apply(w, popped=popped)
+            if ab.outside:
+                return []       # the input left the quantifier of the property: no verdict
             got = [int(e[1:]) for e in evs if e[0] == "r"]
             for e in evs:
                 if e == "dBAD":
@@ -452,7 +572,16 @@ class SPSuite(Suite):
             for g in GROW_POINTS:
                 if mx >= g:
                     reached[str(g)] += 1
-        return {"ops": ops, "modes": modes, "cases_reaching_size": reached, "max_size": maxsize,
+        own = 0
+        for c in cases:
+            mes = set()
+            for l in c["lines"][1:]:
+                w = l.split()
+                if w[0] in ("addme", "ctorself"):
+                    mes.add(w[2])
+                elif w[0] == "await" and w[2] in mes:
+                    own += 1
+        return {"ops": ops, "modes": modes, "awaits_by_a_coroutine_whose_handle_was_handed_in": own, "cases_reaching_size": reached, "max_size": maxsize,
                 "new[]": allocs, "delete[]": frees, "resumptions": resumes, "merges_from_heap_source": heap_merges}
 
 
@@ -476,7 +605,9 @@ class C06(Spec):
                   "(sampling), the assumption that resumed coroutines are trivial (they do not touch the suspend points or the queue while "
                   "being resumed), _count_flag does not overflow 2^31 handles")
     assumptions = ["resumed coroutines do not operate on the suspend points / ready queue while they are being resumed (trivial counting coroutines)",
-                   "the awaiting coroutine's own handle is not among the handles of the awaited suspend point and not already queued",
+                   "the awaiting coroutine's own handle is not the LAST (or only) handle of the awaited suspend point and not already "
+                   "queued (own handle first / in the middle — the yield idiom via cocls::self — is covered: c06_await_own_handle)",
+                   "the handle of a coroutine that is currently running is consumed only by that coroutine's own co_await",
                    "fewer than 2^31 handles per suspend point (unsigned _count_flag)",
                    "single thread (suspend_point is not a shared object)"]
 
